@@ -30,7 +30,7 @@ Viol(S0, ln) ==
   \cup { <<"C16", "writes-in-namespace">> : x \in IF WritesConfined(S0, a, keys) THEN {} ELSE {1} }
   \cup { <<"C16", "substitute-untouched">> : x \in IF SubstituteUntouched(S0, a, keys) THEN {} ELSE {1} }
   \cup { <<"C16", "namespaces-disjoint">> : x \in IF NamespacesDisjoint(Follow(S0, a, ln.res)) THEN {} ELSE {1} }
-  \cup { <<"CONF", "result">> : x \in IF E.res = ln.res THEN {} ELSE {1} }
+  \cup { <<"CONF", "result">> : x \in IF (E.res = "ok") = (ln.res = "ok") THEN {} ELSE {1} }
   \cup { <<"CONF", "created-id">> : x \in IF a.op = "create" /\ ln.res = "ok" /\ ln.created # Target(S0, a) THEN {1} ELSE {} }
   \cup { <<"CONF", "rejected-but-wrote">> : x \in IF ln.res # "ok" /\ keys # {} THEN {1} ELSE {} }
 
